@@ -24,11 +24,11 @@ from common import req, close, relerr, TOL, run_driver
 import mixgen
 
 META = {
-    'text': 'Theorems (Lean 4, over the reals, any number of compounds and size bins): for the mass-flux and the standard-volume-flux convention number flux x per-particle component masses = prescribed mass flux x mass fractions (vector and total), resp. = volume flux x density at 273.15 K/1e5 Pa x mass fractions; per-particle convention: number flux 1 and the library masses of one particle; the particle has the prescribed diameter (from scale invariance of density; insoluble: unconditionally) and mole fractions; with sum(vf)=1 the bins of blowout.particles carry exactly the phase total of every compound; blowout: fluxes over all gas and liquid bins = released mass flux of every compound given flash conservation and the flash\'s own phase hand-off (also with an absent phase); first plume element: packed row = m x nb0 x fill time per compound, heat, zeros, fill time = element volume / discharge. The model is tied to the real code by oracle-table correspondence (recorded density / masses_by_diameter / ambient answers of the real objects replayed through the model, questions and outputs compared); every predicate is also evaluated directly on the real outputs of initial_conditions, blowout.particles, Blowout(...).disp_phases, particle_from_Q/mb0 and the first row of bent_plume_model.Model.q.',
-    'note': 'Trusted: Lean kernel + 3 standard axioms; the hand transcription Model/Release.lean (validated each run by the oracle-table correspondence); real arithmetic for IEEE doubles. NOT modelled (oracle parameters, named hypotheses in the theorems): the equations of state behind density (scale invariance = C10), the flash (conservation = C02; its hand-off m = n*xi*M is checked on every real flash output), profile interpolation (C07), the size-distribution model psm (only its output arrays are used). The hypotheses are checked on the real library on every generated case (sampled).',
-    'technique': 'Lean 4 proof over a hand-written model + oracle-table correspondence + direct predicates on real outputs',
+    'text': 'Theorems (Lean 4, over the reals, any number of compounds and size bins): for the mass-flux and the standard-volume-flux convention number flux x per-particle component masses = prescribed mass flux x mass fractions (vector and total; also for a zero flux), resp. = volume flux x density at 273.15 K/1e5 Pa x mass fractions; the particle built has the prescribed diameter (given scale invariance of density - a HYPOTHESIS for an arbitrary oracle, a THEOREM (eos_density_scaleInvariant, chained with Props.C10.gen_density_smul) for the density regenerated from dbm_p.py on every run; insoluble: unconditional) and mole fractions; per-particle convention: the guarded round-trip hypotheses are proved for the transcribed masses_by_diameter (roundTrips_hold); with sum(vf)=1 the bins of blowout.particles carry exactly the phase total of every compound (empty bins allowed); blowout: fluxes over all gas and liquid bins = released mass flux of every compound GIVEN (hypotheses) flash conservation and the flash\'s phase hand-off, also with an absent phase without bins; first plume element: packed row = m x nb0 x fill time per compound, heat, zeros, fill time = element volume / discharge, and a class set up with mass flux q contributes q x mf_j x dt. The model is tied to the real code by oracle-table correspondence (recorded density / masses_by_diameter / ambient answers of the real objects replayed through the model, questions and outputs compared); every predicate is also evaluated on the real outputs of initial_conditions, blowout.particles, Blowout(...).disp_phases, particle_from_Q/mb0 and the first row of bent_plume_model.Model.q, the latter against the release set-up\'s OWN nb0/m0 and an independent fill-time slot.',
+    'note': 'Trusted: Lean kernel + 3 standard axioms; the hand transcription Model/Release.lean (validated each run by the oracle-table correspondence); real arithmetic for IEEE doubles. HYPOTHESES of the theorems, NOT proved here and only sampled on the real library on every generated case: conservation of the flash (that is property C02; not imported as a lemma), the flash hand-off m = n*xi*M, positivity of the densities, scale invariance of density for an arbitrary oracle (proved only for the regenerated Python EOS density, Props.C10.gen_density_smul; the Fortran backend is tied to it by C08). Not modelled: profile interpolation (C07), the size-distribution model psm (only its output arrays are used). Coverage floors per clause are obligations. Known finding: user-supplied bins for a phase that is absent at the release give NaN particles.',
+    'technique': 'Lean 4 proof over a hand-written model (one hypothesis discharged by a theorem about regenerated code) + oracle-table correspondence + direct predicates on real outputs with independent oracles',
 }
-GEN = []
+GEN = ['eosfull']       # Props/C11 chains with Props.C10.gen_density_smul about the density regenerated from dbm_p.py
 MODULES = ['TamocV.Props.C11', 'TamocV.Model.Release']
 RULE = ('initial_conditions on real dbm particles: gas bubbles / liquid drops of 1-8 database compounds (Dirichlet or log-uniform mole '
         'fractions incl. traces and zero entries, yk as array or list) and inert particles (fluid/rigid, compressible or not); '
@@ -40,8 +40,10 @@ RULE = ('initial_conditions on real dbm particles: gas bubbles / liquid drops of
         '(pure multiphase and with produced water, gas+inert particle lists and blowouts); a case is non-trivial when its '
         '(kind, particle kind, number of compounds, q_type, T0 mode, bins) combination or its rounded inputs are new')
 LEVEL_NOTE = ('theorems over the reals about the hand-written model of the release set-up; the model is tied to /repo by '
-              'oracle-table correspondence on generated cases (sampled); library (EOS, flash, profile) answers are an oracle whose '
-              'named hypotheses (scale invariance, flash conservation and hand-off) are sampled only; floating point and libm are trusted')
+              'oracle-table correspondence on generated cases (sampled); library (EOS, flash, profile) answers are an oracle; flash '
+              'conservation (C02) and the flash hand-off are HYPOTHESES of the blowout theorems and are sampled only; scale invariance of '
+              'density is a hypothesis for an arbitrary oracle and a theorem (gen_density_smul) for the regenerated Python EOS density; '
+              'floating point and libm are trusted')
 
 TOL_DIAM = 1e-9     # diameter of the particle built vs prescribed: density(c*m) vs density(m) agree to rounding (cubic
 #                     root finding amplifies 1e-16 to <= 1e-12 observed), cube root divides the error by 3
@@ -50,7 +52,8 @@ TOL_FLASH = TOL['conservation_drift']   # blowout total vs mass_flux: chained wi
 
 def audit_files():
     return ['TamocV/Num.lean', 'TamocV/Real.lean', 'TamocV/Proto.lean', 'TamocV/Lemmas/Basic.lean',
-            'TamocV/Lemmas/C11.lean', 'TamocV/Model/Release.lean', 'TamocV/Props/C11.lean']
+            'TamocV/Lemmas/C11.lean', 'TamocV/Model/Release.lean', 'TamocV/Props/C11.lean',
+            'TamocV/Props/C10Gen.lean', 'TamocV/Props/C10.lean', 'TamocV/Lemmas/EosRefine.lean', 'TamocV/Gen/EosFullPy.lean']
 
 
 LIQUIDS = ['2-3-dimethylbutane', '2-methylpentane', '3-methylpentane', 'benzene', 'ethylbenzene', 'isopentane',
@@ -391,7 +394,8 @@ def gen_bins(r, n):
     return d, vf
 
 
-def bins_case(ctx, r, profiles, i):
+def bins_case(ctx, r, profiles, i, mode='normal'):
+    """mode: 'normal' | 'zero-vf' (an empty bin: vf_i = 0, the others sum to 1) | 'long-vf' (len(vf) > len(d))"""
     from tamoc import blowout
     kind = r.choice(['gas', 'liquid'])
     particle, descr = gen_particle(r, kind)
@@ -402,6 +406,15 @@ def bins_case(ctx, r, profiles, i):
     yk, ymode = gen_yk(r, len(particle.composition))
     n = r.choice([1, 2, 40, r.randint(1, 40), r.randint(1, 40)])
     d, vf = gen_bins(r, n)
+    if mode == 'zero-vf':
+        if n < 2:
+            n = 3
+            d, vf = gen_bins(r, n)
+        vf[r.randrange(n)] = 0.
+        vf = vf / vf.sum()
+    elif mode == 'long-vf':
+        extra = r.randint(1, 3)
+        _d, vf = gen_bins(r, n + extra)       # sums to 1 over n + extra entries; only the first n are used by the code
     m_tot = 10 ** r.uniform(-3, 2)
     lam = r.uniform(0.7, 1.0)
     rec = Rec()
@@ -414,7 +427,7 @@ def bins_case(ctx, r, profiles, i):
     return {'kind': 'bins', 'particle': descr, 'profile': profiles[ip][1], 'z0': z0, 'Tj': Tj, 'yk': yk.tolist(), 'm_tot': m_tot,
             'd': d.tolist(), 'vf': vf.tolist(), 'amb': [Ta, Sa, P], 'M': fl(particle.M),
             'm0': [fl(p.m0) for p in ps], 'nb0': [float(p.nb0) for p in ps],
-            'calls': rec.calls, 'particle_obj': particle, 'nb': n}
+            'calls': rec.calls, 'particle_obj': particle, 'nb': n, 'mode': mode}
 
 
 def bins_predicates(ctx, c, worst):
@@ -433,20 +446,28 @@ def bins_predicates(ctx, c, worst):
         return
     m0 = np.array(c['m0'])
     nb0 = np.array(c['nb0'])
+    nd = len(c['d'])
+    vf = np.array(c['vf'][:nd])      # `for i in range(len(d))`: volume fractions beyond len(d) are silently ignored
+    if len(c['vf']) > nd:
+        ctx.count('bins: len(vf) > len(d): the extra volume fractions are silently ignored (bins carry sum(vf[:len(d)]) * m_tot)')
+    rep['mode'] = c.get('mode')
     tot = (nb0[:, None] * m0).sum(axis=0)
-    exp = c['m_tot'] * float(np.sum(c['vf'])) * mf
+    exp = c['m_tot'] * float(np.sum(vf)) * mf
     e = float(np.max(np.abs(tot - exp))) / c['m_tot']
-    worst['bins'] = max(worst['bins'], e if math.isfinite(e) else float('inf'))
+    worst['bins'] = max(worst['bins'], e if math.isfinite(e) else 0.)
+    zero = vf == 0.
     if not (np.all(np.isfinite(tot)) and e <= TOL['identity']):
-        ctx.violation('bins-total', 'the size bins of blowout.particles do not carry the phase total of every compound',
+        ctx.violation('bins-total', 'the size bins of blowout.particles do not carry the phase total of every compound'
+                      + (' (distribution with an empty bin, vf_i = 0)' if zero.any() else ''),
                       dict(rep, total_over_bins=tot.tolist(), expected=exp.tolist(), relerr=e))
-    for k in range(len(c['d'])):
-        eb = float(np.max(np.abs(nb0[k] * m0[k] - c['vf'][k] * c['m_tot'] * mf))) / (c['vf'][k] * c['m_tot'])
-        if not eb <= TOL['identity']:
-            ctx.violation('bins-bin-flux', 'a size bin does not carry vf_i * m_tot of every compound',
-                          dict(rep, bin=k, relerr=eb))
+    for k in range(nd):
+        # an empty bin (vf_i = 0) carries nothing: number flux 0, finite per-particle masses
+        eb = float(np.max(np.abs(nb0[k] * m0[k] - vf[k] * c['m_tot'] * mf))) / (max(vf[k], 1e-3 / nd) * c['m_tot'])
+        if not (eb <= TOL['identity'] and np.all(np.isfinite(m0[k])) and (vf[k] > 0. or nb0[k] == 0.)):
+            ctx.violation('bins-bin-flux', 'a size bin does not carry vf_i * m_tot of every compound'
+                          + (' (empty bin, vf_i = 0)' if vf[k] == 0. else ''), dict(rep, bin=k, relerr=eb))
             break
-    for k in (0, len(c['d']) - 1, len(c['d']) // 2):
+    for k in sorted(set([0, len(c['d']) - 1, len(c['d']) // 2] + [int(i) for i in np.nonzero(zero)[0]])):
         with np.errstate(all='ignore'):
             dk = float(p.diameter(m0[k], c['Tj'], P))
             yg = np.asarray(p.mol_frac(m0[k]), dtype=float)
@@ -471,9 +492,9 @@ def bins_compare(c, res, worst):
     if not isinstance(res, list):
         return ['particles: %r' % (res,)]
     bad = []
-    n = len(c['d'])
-    if len(res) != 2 * n + 1:
-        return ['particles: model returns %d bins, code %d' % ((len(res) - 1) // 2, n)]
+    n = min(len(c['d']), len(c['vf']))
+    if len(res) != 2 * n + 1 or len(c['m0']) != n or len(c['nb0']) != n:
+        return ['particles: model returns %d bins, code %d' % ((len(res) - 1) // 2, len(c['m0']))]
     for k in range(n):
         for a, b in zip(res[2 * k], c['m0'][k]):
             worst['corr'] = max(worst['corr'], relerr(a, b))
@@ -482,7 +503,7 @@ def bins_compare(c, res, worst):
             bad.append('bin %d model=(%r,%r) code=(%r,%r)' % (k, res[2 * k], res[2 * k + 1], c['m0'][k], c['nb0'][k]))
             break
     tot = (np.array(c['nb0'])[:, None] * np.array(c['m0'])).sum(axis=0)
-    if not all(abs(a - b) <= TOL['identity'] * c['m_tot'] for a, b in zip(res[-1], tot)):
+    if not all((math.isnan(a) and math.isnan(b)) or abs(a - b) <= TOL['identity'] * c['m_tot'] for a, b in zip(res[-1], tot)):
         bad.append('component totals model=%r code=%r' % (res[-1], tot.tolist()))
     return bad
 
@@ -508,15 +529,19 @@ def gen_dead_oil(r, nmax=8):
     return comp, ms / ms.sum()
 
 
-def blowout_case(ctx, r, profiles, i, force=None):
+def blowout_case(ctx, r, profiles, i, force=None, stratum=None):
     """force = 'user-absent-gas': user size distribution with gas bins at GOR 0 (absent gas phase)"""
     from tamoc import blowout, dbm_utilities
     comp, ms = gen_dead_oil(r)
     ip, z0 = gen_release(r, profiles)
     prf = profiles[ip][0]
     gor = r.choice([0., 10 ** r.uniform(1, math.log10(5000.)), r.uniform(0., 5000.), 10 ** r.uniform(1, math.log10(5000.))])
+    if stratum in ('gor0', 'gor0-user'):
+        gor = 0.
+    elif stratum in ('two-phase', 'two-phase-user'):
+        gor, z0 = 10 ** r.uniform(2.5, 3.7), r.uniform(50., 300.)
     if gor > 0. and r.random() < 0.6:
-        z0 = r.uniform(50., 600.)        # shallow enough for free gas at the release
+        z0 = min(z0, r.uniform(50., 600.))        # shallow enough for free gas at the release
     q_oil = 10 ** r.uniform(2, 5.3)
     d0 = r.uniform(0.05, 0.5)
     ng, no = r.randint(1, 20), r.randint(1, 20)
@@ -527,7 +552,7 @@ def blowout_case(ctx, r, profiles, i, force=None):
         gor, mode, z0 = 0., 'user', 800.
         comp, ms = ['n-hexane', 'n-heptane', 'benzene', 'toluene', 'n-decane'], np.array([0.1, 0.2, 0.2, 0.3, 0.2])
         ng, no = 2, 3
-    elif r.random() < 0.3:
+    elif (stratum or '').endswith('-user') or (stratum is None and r.random() < 0.3):
         mode = 'user'
     case = {'kind': 'blowout', 'mode': mode, 'profile': profiles[ip][1], 'z0': z0, 'd0': d0, 'composition': comp,
             'masses': ms.tolist(), 'q_oil': q_oil, 'gor': gor, 'num_gas_elements': ng, 'num_oil_elements': no, 'ca': ca,
@@ -706,7 +731,7 @@ class IcRecorder:
 
 
 def row_case_particles(ctx, r, profiles, i):
-    from tamoc import bent_plume_model, dispersed_phases
+    from tamoc import bent_plume_model, dispersed_phases, seawater
     ip, z0 = gen_release(r, profiles)
     z0 = min(z0, 2500.)
     prf = profiles[ip][0]
@@ -715,6 +740,7 @@ def row_case_particles(ctx, r, profiles, i):
     nparts = r.randint(1, 4)
     parts = []
     specs = []
+    own = []     # what the RELEASE SET-UP prescribed (initial_conditions outputs), independent of what lmp hands on
     for k in range(nparts):
         if k > 0 and r.random() < 0.4:
             pobj, descr = gen_particle(r, 'inert')
@@ -726,12 +752,18 @@ def row_case_particles(ctx, r, profiles, i):
                 yk = np.ones(len(yk)) / len(yk)
         mb0 = 10 ** r.uniform(-2, 1)
         de = 10 ** r.uniform(-3.3, -2)
-        T0 = Ta + r.choice([0., r.uniform(0., 30.)])
+        T0 = Ta + r.choice([0., r.uniform(0., 30.), r.uniform(0., 30.), 0.3])
         with np.errstate(all='ignore'):
             m0, T0p, nb0, Pp, Sap, Tap = dispersed_phases.initial_conditions(prf, z0, pobj, yk, mb0, 2, de, T0)
             parts.append(bent_plume_model.Particle(0., 0., z0, pobj, m0, T0p, nb0, r.uniform(0.7, 1.), Pp, Sap, Tap,
                                                    K=1., K_T=1., fdis=1.e-6, t_hyd=0., lag_time=False))
         specs.append({'particle': descr, 'yk': yk.tolist(), 'mb0': mb0, 'de': de, 'T0': T0})
+        # the particle wrapper equilibrates a particle that is within 0.5 K of the ambient (SingleParticle.properties
+        # l.208-213, property C17): the temperature carried by the element is then the ambient one
+        T_own = float(Tap) if abs(float(Tap) - float(T0p)) < 0.5 else float(T0p)
+        if T_own != float(T0p):
+            ctx.count('first-row: particle within 0.5 K of ambient (carried at ambient temperature)')
+        own.append((fl(m0), float(nb0), 0.5 * float(seawater.cp()), T_own))
     Vj = r.choice([None, 0., r.uniform(0.2, 3.)])
     D = r.uniform(0.05, 0.6)
     case = {'kind': 'first-row', 'source': 'particle list', 'profile': profiles[ip][1], 'z0': z0, 'D': D, 'Vj': Vj, 'particles': specs}
@@ -739,41 +771,62 @@ def row_case_particles(ctx, r, profiles, i):
     with IcRecorder() as ir, silence(), np.errstate(all='ignore'):
         bpm.simulate(np.array([0., 0., z0]), D, Vj, -np.pi / 2., 0., 0., Ta, np.array([1.]), ['tracer'], parts,
                      track=False, dt_max=60., sd_max=r.uniform(0.2, 1.5))
-    case.update({'row': fl(bpm.q[0, :]), 'rec': ir.rec[-1] if ir.rec else None})
+    case.update({'row': fl(bpm.q[0, :]), 'rec': ir.rec[-1] if ir.rec else None, 'own': own})
     return case
 
 
 def row_case_blowout(ctx, c):
+    from tamoc import seawater
     b = c['b']
+    # the release set-up's own numbers, captured when the Blowout was constructed (before simulate touches anything)
+    own = [(list(m0), float(nb0), 0.5 * float(seawater.cp()), float(c['Tj'])) for m0, nb0 in zip(c['m0'], c['nb0'])]
     b.track = False
     b.sd_max = 1.0
     with IcRecorder() as ir, silence(), np.errstate(all='ignore'):
         b.simulate()
     rep = {k: c[k] for k in ('profile', 'z0', 'd0', 'composition', 'masses', 'q_oil', 'gor', 'num_gas_elements',
                              'num_oil_elements', 'ca', 'mode')}
-    rep.update({'kind': 'first-row', 'source': 'blowout', 'row': fl(b.bpm.q[0, :]), 'rec': ir.rec[-1] if ir.rec else None})
+    rep.update({'kind': 'first-row', 'source': 'blowout', 'row': fl(b.bpm.q[0, :]), 'rec': ir.rec[-1] if ir.rec else None,
+                'own': own, 'D': c['d0'], 'Vj': None})
     return rep
 
 
 def row_predicates(ctx, c, worst):
+    """first plume element vs the release set-up's OWN nb0 / m0 (not what bent_plume_ic was handed) and a fill time read
+    from an independent slot of the same row: q[6] = h / V = h A / Q = pi b^2 h / Q"""
     rec = c['rec']
     rep = {k: v for k, v in c.items() if k != 'rec'}
     if rec is None:
         ctx.violation('first-row-no-ic', 'simulate did not build the first element through lmp.bent_plume_ic', rep)
         return
     row = np.array(c['row'])
-    # fill time from an independent slot of the same row: q[0] = Mj = Qj * dt * rho_j
-    dt = row[0] / (rec['Qj'] * rec['rho_j'])
+    dt = float(row[6])
+    # two further routes to the fill time must agree: Mj / (Qj rho_j), and for a release with produced water D / (5 Vj)
+    dt2 = float(row[0] / (rec['Qj'] * rec['rho_j']))
+    if not close(dt, dt2, TOL['identity']):
+        ctx.violation('first-row-fill-time', 'fill time h/V of the first element differs from Mj / (Qj rho_j)', dict(rep, h_over_V=dt, Mj_route=dt2))
+        return
+    if c.get('Vj'):
+        if not close(dt, c['D'] / 5. / c['Vj'], 1e-9):
+            ctx.violation('first-row-fill-time', 'fill time of the first element differs from (D/5) / Vj', dict(rep, h_over_V=dt, expected=c['D'] / 5. / c['Vj']))
+            return
+    if len(rec['parts']) != len(c['own']):
+        ctx.violation('first-row-particle-count', 'bent_plume_ic was handed %d particle classes, the release set-up has %d'
+                      % (len(rec['parts']), len(c['own'])), rep)
+        return
     k = 11
-    for idx, (m, nb0, cp, T) in enumerate(rec['parts']):
+    for idx, (m, nb0, cp, T) in enumerate(c['own']):
         m = np.array(m)
         blk = row[k:k + len(m) + 5]
         exp = np.concatenate((m * nb0 * dt, [m.sum() * nb0 * dt * cp * T, 0., 0., 0., 0.]))
+        if len(blk) != len(exp):
+            ctx.violation('first-row-particles', 'first plume element row is too short for the particle classes of the release', dict(rep, particle_index=idx))
+            return
         sc = max(float(np.max(np.abs(exp[:len(m)]))), 1e-300)
         e = max(float(np.max(np.abs(blk[:len(m)] - exp[:len(m)]))) / sc, relerr(float(blk[len(m)]), float(exp[len(m)])))
         worst['row'] = max(worst['row'], e if math.isfinite(e) else float('inf'))
-        if len(blk) != len(exp) or not (e <= TOL['identity'] and np.all(blk[len(m) + 1:] == 0.)):
-            ctx.violation('first-row-particles', 'first plume element does not carry m * nb0 * fill time (heat, zeros) for a particle class',
+        if not (e <= TOL['identity'] and np.all(blk[len(m) + 1:] == 0.)):
+            ctx.violation('first-row-particles', 'first plume element does not carry (m0 of the release set-up) * (nb0 of the release set-up) * fill time (heat, zeros) for a particle class',
                           dict(rep, particle_index=idx, block=blk.tolist(), expected=exp.tolist(), fill_time=dt, nb0=nb0))
             return
         # number of particles in the element = nb0 * fill time
@@ -787,14 +840,16 @@ def row_predicates(ctx, c, worst):
 
 
 def row_lines(c):
+    """the model is fed the release set-up's own (m0, nb0, cp, T); only the geometry (A, Qj) is what lmp computed"""
     rec = c['rec']
     args = []
-    for m, nb0, cp, T in rec['parts']:
+    for m, nb0, cp, T in c['own']:
         args += [m, nb0, cp, T]
-    return req('Release.firstRow', rec['A'], rec['Qj'], *args)
+    return [req('Release.firstRow', rec['A'], rec['Qj'], *args), req('Release.fillTime', rec['A'], rec['Qj'])]
 
 
-def row_compare(c, res, worst):
+def row_compare(c, outs, worst):
+    res = outs[0]
     if not isinstance(res, list):
         return ['firstRow: %r' % (res,)]
     row = c['row']
@@ -802,9 +857,12 @@ def row_compare(c, res, worst):
     code = row[11:11 + len(model)]
     for a, b in zip(model, code):
         worst['corr'] = max(worst['corr'], relerr(a, b))
+    bad = []
     if not close(model, code, TOL['gen_vs_source']):
-        return ['firstRow model=%r code=%r' % (model[:8], code[:8])]
-    return []
+        bad.append('firstRow model=%r code=%r' % (model[:8], code[:8]))
+    if not (isinstance(outs[1], list) and close(outs[1][0], row[6], TOL['gen_vs_source'])):
+        bad.append('fillTime model=%r row[6]=%r' % (outs[1], row[6]))
+    return bad
 
 
 # ---------------------------------------------------------------------------
@@ -856,8 +914,13 @@ def _run(ctx, lean_ok):
 
     # ---- B: blowout.particles ----------------------------------------------------------
     bins = []
-    for i in range(ctx.n(30, 500)):
-        c = bins_case(ctx, r, profiles, i)
+    nbins = ctx.n(30, 500)
+    for i in range(nbins):
+        # case 0: an empty bin; case 1: len(vf) > len(d); thorough: a few more of each
+        mode = 'zero-vf' if (i == 0 or (ctx.thorough and i % 50 == 7)) else ('long-vf' if (i == 1 or (ctx.thorough and i % 50 == 9)) else 'normal')
+        c = bins_case(ctx, r, profiles, i, mode)
+        if mode != 'normal':
+            ctx.count('bins:' + mode)
         bins.append(c)
         ctx.count('bins:%s:%s' % (c['particle']['kind'], '1' if c['nb'] == 1 else ('2-10' if c['nb'] <= 10 else '11-40')))
         ctx.nontrivial.add(nontrivial_key(c))
@@ -869,10 +932,13 @@ def _run(ctx, lean_ok):
 
     # ---- C: Blowout(...) ----------------------------------------------------------------
     blows = []
-    nblow = ctx.n(9, 150)
+    nblow = ctx.n(16, 150)
     for i in range(nblow):
         force = 'user-absent-gas' if i == 0 else None
-        c = blowout_case(ctx, r, profiles, i, force)
+        # stratified head of the list so that every coverage floor is met by construction, random tail
+        stratum = {1: 'gor0', 2: 'gor0', 3: 'gor0-user', 4: 'two-phase', 5: 'two-phase', 6: 'two-phase', 7: 'two-phase-user',
+                   8: 'two-phase'}.get(i if not ctx.thorough else (i if i < 9 else (i % 9 if i % 3 == 0 else -1)))
+        c = blowout_case(ctx, r, profiles, i, force, stratum)
         if c is None:
             continue
         blows.append(c)
@@ -901,13 +967,31 @@ def _run(ctx, lean_ok):
         ctx.nontrivial.add(nontrivial_key(c))
         row_predicates(ctx, c, worst)
         if c['rec'] is not None:
-            add(c, [row_lines(c)], lambda c, o: row_compare(c, o[0], worst))
+            add(c, row_lines(c), lambda c, o: row_compare(c, o, worst))
     if rows:
         c = rows[0]
         ctx.sample({'kind': c['kind'], 'source': c['source'], 'z0': c['z0'], 'row[0:14]': c['row'][:14],
                     'particles': c['rec']['parts'] if c['rec'] else None})
 
     ctx.evaluations = len(ics) + len(bins) + len(blows) + len(rows)
+
+    # ---- coverage floors (obligations): every clause of the property is exercised in every run ------------------
+    def floor(name, have, need):
+        ctx.oblige('coverage floor: %s >= %d' % (name, need), have >= need, 'only %d' % have)
+    for pk in ('gas', 'liquid', 'inert'):
+        for qt in (0, 1, 2):
+            floor('initial_conditions cases judged, %s particle, q_type %d' % (pk, qt),
+                  sum(1 for c in ics if c['kind'] == 'ic' and c['particle']['kind'] == pk and c['q_type'] == qt), ctx.n(5, 100))
+    floor('particle_from_Q / particle_from_mb0 cases', sum(1 for c in ics if c['kind'] != 'ic'), ctx.n(30, 400))
+    floor('blowout.particles cases with > 10 bins', sum(1 for c in bins if c['nb'] > 10), ctx.n(6, 100))
+    floor('blowout.particles cases with an empty bin (vf_i = 0)', sum(1 for c in bins if c.get('mode') == 'zero-vf'), 1)
+    okb = [c for c in blows if not c.get('forced') and all(math.isfinite(x) for x in c['nb0'])]
+    floor('blowouts judged (finite set-up)', len(okb), ctx.n(10, 100))
+    floor('blowouts judged with gas AND liquid bins', sum(1 for c in okb if c['d_gas'] and c['d_liq']), ctx.n(3, 30))
+    floor('blowouts judged with GOR 0', sum(1 for c in okb if c['gor'] == 0.), ctx.n(2, 15))
+    floor('blowouts judged with a user-supplied size distribution', sum(1 for c in okb if c['mode'] == 'user'), ctx.n(2, 20))
+    floor('first-element rows judged (particle lists)', sum(1 for c in rows if c.get('source') == 'particle list' and c['rec']), ctx.n(6, 80))
+    floor('first-element rows judged (blowouts)', sum(1 for c in rows if c.get('source') == 'blowout' and c['rec']), ctx.n(2, 20))
 
     # ---- correspondence through the driver ---------------------------------------------
     if lean_ok:
